@@ -11,7 +11,7 @@ import (
 )
 
 var AltIds = []string{"a", "b", "c", "d", "e", "f", "g"}
-var CritIds = []string{"c1", "c2", "c3", "c4", "c5"}
+var CritIds = []string{"c1", "c2", "c3", "c4", "c5", "c6", "c7"}
 
 // Criteria builds k criteria; each type is a harness choice (gain/cost) unless fixed is given.
 func Criteria(k int, fixed string) model.Criteria {
